@@ -80,10 +80,8 @@ theorem chunksLoop_eq (cf : State → Bytes → State) (fuel : Nat) (h : Hasher)
 /-! ### `digest` -/
 
 theorem extra_eq (bits : UInt64) :
-    [(bits >>> 56).toUInt8, (bits >>> 48).toUInt8, (bits >>> 40).toUInt8, (bits >>> 32).toUInt8,
-      (bits >>> 24).toUInt8, (bits >>> 16).toUInt8, (bits >>> 8).toUInt8, (bits >>> 0).toUInt8]
-    = putU64be bits := by
-  simp [putU64be]
+    Generated.sha1TrailerShifts.map (fun s => (bits >>> s).toUInt8) = putU64be bits := by
+  simp [Generated.sha1TrailerShifts, putU64be]
 
 theorem bits_eq (q r : Nat) :
     (UInt64.ofNat (64 * q) + (r.toUInt32).toUInt64) * 8 = UInt64.ofNat (8 * (64 * q + r % 2 ^ 32)) := by
@@ -103,7 +101,8 @@ theorem digest_eq (cf : State → Bytes → State) (h : Hasher) (q r : Nat) (t :
   have hrn : (r.toUInt32).toNat = r := by simp; omega
   have hmod : r % 2 ^ 32 = r := by omega
   unfold digest
-  simp only [extra_eq, hlen, hbl, bits_eq, hrn, hblk, hmod]
+  simp only [extra_eq, hlen, hbl, bits_eq, hrn, hblk, hmod, Generated.sha1PadThreshold,
+    Generated.sha1PadMarker, Generated.sha1TrailerOffShort, Generated.sha1TrailerOffLong]
   have hex : (putU64be (UInt64.ofNat (8 * (64 * q + r)))).length = 8 := by simp
   generalize putU64be (UInt64.ofNat (8 * (64 * q + r))) = ex at hex ⊢
   rw [Z_def]
